@@ -8,6 +8,15 @@
 //	burst   several producers publish concurrently while the writer sits in the write function
 //	release the write function returns (end of a broker stall)
 //	close   Close() is called in its own goroutine
+//	full    the batching loop is stalled (the harness takes the FifoBuffer mutex through the verif
+//	        hook, so the loop stops at its next Push) while producers publish numbered events
+//	        from their goroutines; when nothing moves any more (every producer has returned or is
+//	        parked in a channel send, the channel is full, the loop sits in Push) the number of
+//	        WriteEvent calls that have returned is recorded — unchanged code: capacity + 1, the
+//	        channel plus the message in the loop's hand; the model: enabledness of Publish —,
+//	        then the mutex is given back and everything drains.  Small ones (the burst fits) are
+//	        ordinary operations of a schedule; the long ones (capacity + k events, "merge" cases)
+//	        are written as CFull cases, which Coq compares with the closed form proved for OFull.
 //
 // After every operation the harness waits until nothing moves any more (channel empty, every
 // accepted message either recorded or in the FIFO, writer inside the write function or parked in
@@ -57,9 +66,29 @@ type evIn struct {
 }
 
 type opIn struct {
-	Op    string `json:"op"` // pub | burst | release | close
-	Ev    *evIn  `json:"ev,omitempty"`
-	Burst []evIn `json:"burst,omitempty"` // program order; each producer publishes its own events in this order
+	Op    string  `json:"op"` // pub | burst | release | close | full
+	Ev    *evIn   `json:"ev,omitempty"`
+	Burst []evIn  `json:"burst,omitempty"` // program order; each producer publishes its own events in this order
+	Full  *fullIn `json:"full,omitempty"`
+}
+
+// fullProd: producer P publishes N events (N = capacity + Over when Over is given) with tags
+// T0, T0+1, ... from its own goroutine.
+type fullProd struct {
+	P    int  `json:"p"`
+	T0   int  `json:"t0"`
+	N    int  `json:"n,omitempty"`
+	Over *int `json:"over,omitempty"`
+}
+
+type fullIn struct {
+	K    int    `json:"k"` // event type of every event (0..8)
+	Env  string `json:"env,omitempty"`
+	Task string `json:"task,omitempty"`
+	// Bulk: published first, by one producer alone (it must fit into the channel); then Prods
+	// publish concurrently.  Still one stall of the batching loop.
+	Bulk  *fullProd  `json:"bulk,omitempty"`
+	Prods []fullProd `json:"prods"`
 }
 
 type raceIn struct {
@@ -69,8 +98,11 @@ type raceIn struct {
 }
 
 type caseIn struct {
-	Ops  []opIn  `json:"ops,omitempty"`
-	Race *raceIn `json:"race,omitempty"`
+	Ops []opIn `json:"ops,omitempty"`
+	// Merge: the last operation is a long "full"; the case is written as CFull (observations of
+	// all operations merged) instead of CSched
+	Merge bool    `json:"merge,omitempty"`
+	Race  *raceIn `json:"race,omitempty"`
 }
 
 // ---------- observations ----------
@@ -88,6 +120,7 @@ type opObs struct {
 	Batches [][]omsg `json:"batches,omitempty"`          // content when the write function was entered
 	Closed  bool     `json:"close_returned,omitempty"`
 	Left    [][]omsg `json:"at_return,omitempty"` // same slice, content when the write function returned
+	Stall   [2]int   `json:"stall,omitempty"`     // full: WriteEvent calls returned while the batching loop was stalled, channel capacity
 }
 
 // ---------- events ----------
@@ -428,6 +461,10 @@ func (r *runner) do(op opIn) opObs {
 				return o
 			}
 		}
+	case "full":
+		if st := r.doFull(op.Full, &o); !st {
+			return o
+		}
 	case "release":
 		if !r.inGate {
 			o.Res = 1
@@ -455,6 +492,188 @@ func (r *runner) do(op opIn) opObs {
 	}
 	r.settle(&o)
 	return o
+}
+
+// ---------- channel full ----------
+
+func (f *fullIn) resolveBulk(capv int) *fullProd {
+	if f.Bulk == nil {
+		return nil
+	}
+	b := *f.Bulk
+	if b.Over != nil {
+		b.N = capv + *b.Over
+	}
+	if b.N < 0 {
+		b.N = 0
+	}
+	b.Over = nil
+	return &b
+}
+
+// resolve: the producers in start order (the bulk producer first) and the number of events
+func (f *fullIn) resolve(capv int) (prods []fullProd, total int) {
+	if b := f.resolveBulk(capv); b != nil {
+		prods = append(prods, *b)
+		total += b.N
+	}
+	for _, fp := range f.Prods {
+		if fp.Over != nil {
+			fp.N = capv + *fp.Over
+		}
+		if fp.N < 0 {
+			fp.N = 0
+		}
+		fp.Over = nil
+		prods = append(prods, fp)
+		total += fp.N
+	}
+	return
+}
+
+func (f *fullIn) events(capv int) []evIn {
+	prods, total := f.resolve(capv)
+	es := make([]evIn, 0, total)
+	for _, fp := range prods {
+		for i := 0; i < fp.N; i++ {
+			es = append(es, evIn{P: fp.P, K: f.K, T: fp.T0 + i, Env: f.Env, Task: f.Task})
+		}
+	}
+	return es
+}
+
+// fullWorker publishes the events of one producer in order and counts the calls that returned.
+// (A method of its own so that the goroutine can be recognised in a goroutine dump.)
+func (r *runner) fullWorker(f *fullIn, fp fullProd, returned *int64, panicked *int32) {
+	for i := 0; i < fp.N; i++ {
+		e := evIn{P: fp.P, K: f.K, T: fp.T0 + i, Env: f.Env, Task: f.Task}
+		ok := true
+		func() {
+			defer func() {
+				if x := recover(); x != nil {
+					ok = false
+					atomic.StoreInt32(panicked, 1)
+				}
+			}()
+			publish(r.w, e)
+		}()
+		if ok && e.K <= 8 {
+			atomic.AddInt64(returned, 1)
+		}
+	}
+}
+
+// stallState inspects a goroutine dump: producers of a full operation that are still inside
+// fullWorker, how many of those are parked in a channel send, and whether the batching loop sits
+// in FifoBuffer.Push (it has taken a message and waits for the mutex the harness holds).
+func stallState() (workers, parkedInSend int, batcherInPush bool) {
+	buf := make([]byte, 1<<18)
+	for {
+		n := runtime.Stack(buf, true)
+		if n < len(buf) {
+			buf = buf[:n]
+			break
+		}
+		buf = make([]byte, 2*len(buf))
+	}
+	for _, g := range strings.Split(string(buf), "\n\n") {
+		if strings.Contains(g, ").fullWorker") {
+			workers++
+			if nl := strings.IndexByte(g, '\n'); nl > 0 && strings.Contains(g[:nl], "[chan send") {
+				parkedInSend++
+			}
+		}
+		if strings.Contains(g, ").batchingLoop") && strings.Contains(g, ").Push") {
+			batcherInPush = true
+		}
+	}
+	return
+}
+
+const stallTimeout = 20 * time.Second
+
+// doFull: false = the operation did not complete (o.Res says why), do not settle.
+func (r *runner) doFull(f *fullIn, o *opObs) bool {
+	capv := event.VerifC19ChanCap(r.w)
+	prods, total := f.resolve(capv)
+	release := event.VerifC19HoldBuffer(r.w) // the batching loop stops at its next Push
+	counters := make([]int64, len(prods))
+	var panicked int32
+	done := make(chan struct{}, len(prods))
+	for i, fp := range prods {
+		i, fp := i, fp
+		r.prod(fp.P).cmd <- func() {
+			r.fullWorker(f, fp, &counters[i], &panicked)
+			done <- struct{}{}
+		}
+		if i == 0 && f.Bulk != nil {
+			// the bulk producer alone first (it fits: it cannot wait unless something is wrong,
+			// and then the loop below sees it)
+			for t0 := time.Now(); atomic.LoadInt64(&counters[0]) < int64(fp.N) && time.Since(t0) < 5*time.Second; {
+				time.Sleep(100 * time.Microsecond)
+			}
+		}
+	}
+	sum := func() int {
+		n := int64(0)
+		for i := range counters {
+			n += atomic.LoadInt64(&counters[i])
+		}
+		return int(n)
+	}
+	finished := 0
+	// nothing moves any more: every producer has finished, or the channel is full, the batching
+	// loop holds a message in Push and every unfinished producer is parked in its channel send
+	deadline := time.Now().Add(stallTimeout)
+	still := false
+	for !still {
+		for more := true; more; {
+			select {
+			case <-done:
+				finished++
+			default:
+				more = false
+			}
+		}
+		if finished == len(prods) {
+			still = true
+			break
+		}
+		if event.VerifC19ChanLen(r.w) == capv {
+			workers, parked, inPush := stallState()
+			if inPush && workers == parked && workers > 0 && event.VerifC19ChanLen(r.w) == capv {
+				still = true
+				break
+			}
+		}
+		if time.Now().After(deadline) {
+			break
+		}
+		time.Sleep(200 * time.Microsecond)
+	}
+	o.Stall = [2]int{sum(), capv}
+	release()
+	timeout := time.After(stallTimeout)
+	for finished < len(prods) {
+		select {
+		case <-done:
+			finished++
+		case <-timeout:
+			r.expected += sum()
+			o.Res = 3
+			return false
+		}
+	}
+	r.expected += sum()
+	_ = total
+	if atomic.LoadInt32(&panicked) != 0 {
+		o.Res = 2
+	}
+	if !still {
+		o.Res = 9
+		return false
+	}
+	return true
 }
 
 // abandon lets everything still running go through without the harness.
@@ -492,6 +711,41 @@ func omsgTerm(m omsg) string {
 		k = gen.Some(gen.Str(*m.Key))
 	}
 	return fmt.Sprintf("(%d, %d, %d, %s)", m.P, m.T, m.K, k)
+}
+
+// batchTerm: a batch as a Coq list of omsg; a long batch of one event type and one key in
+// run-length notation (runs of consecutive tags of one producer).
+func batchTerm(b []omsg) string {
+	uniform := len(b) >= 8
+	for _, m := range b {
+		if !uniform {
+			break
+		}
+		if m.K != b[0].K || (m.Key == nil) != (b[0].Key == nil) || (m.Key != nil && *m.Key != *b[0].Key) {
+			uniform = false
+		}
+	}
+	if !uniform {
+		ms := make([]string, len(b))
+		for k, m := range b {
+			ms[k] = omsgTerm(m)
+		}
+		return gen.List(ms)
+	}
+	var runs []string
+	for i := 0; i < len(b); {
+		j := i + 1
+		for j < len(b) && b[j].P == b[i].P && b[j].T == b[j-1].T+1 {
+			j++
+		}
+		runs = append(runs, fmt.Sprintf("(%d, %d, %d)", b[i].P, b[i].T, j-i))
+		i = j
+	}
+	key := gen.None()
+	if b[0].Key != nil {
+		key = gen.Some(gen.Str(*b[0].Key))
+	}
+	return fmt.Sprintf("(runs_batch %d %s %s)", b[0].K, key, gen.List(runs))
 }
 
 // runSched executes a forced schedule; it completes the schedule with the operations needed to
@@ -555,9 +809,50 @@ func runSched(in caseIn) (gen.Case, bool) {
 			}
 		}
 	}
+	// events of a full operation in the order they were accepted (= reached the broker);
+	// those that never arrived last, in program order
+	capv := event.VerifC19ChanCap(r.w)
+	acceptOrder := func(es []evIn) []evIn {
+		es = append([]evIn(nil), es...)
+		sort.SliceStable(es, func(a, b int) bool {
+			pa, oka := pos[[2]int{es[a].P, es[a].T}]
+			pb_, okb := pos[[2]int{es[b].P, es[b].T}]
+			if oka != okb {
+				return oka
+			}
+			return oka && pa < pb_
+		})
+		return es
+	}
+	obsTerm := func(o opObs) string {
+		bs := make([]string, len(o.Batches))
+		for j, b := range o.Batches {
+			bs[j] = batchTerm(b)
+		}
+		ls := make([]string, len(o.Left))
+		for j, b := range o.Left {
+			ls[j] = batchTerm(b)
+		}
+		bstr, lstr := gen.List(bs), gen.List(ls)
+		if len(bstr) > 2000 && bstr == lstr {
+			// same observation at entry and at return of the write function: write it once
+			return fmt.Sprintf("(let bs := %s in (%d, bs, %s, bs, (%d, %d)))", bstr, o.Res, gen.Bool(o.Closed), o.Stall[0], o.Stall[1])
+		}
+		return fmt.Sprintf("(%d, %s, %s, %s, (%d, %d))", o.Res, bstr, gen.Bool(o.Closed), lstr, o.Stall[0], o.Stall[1])
+	}
+	if c, ok := mergedCase(in, ops, obs, capv, acceptOrder, obsTerm); ok {
+		return c, stuck
+	}
 	var opTerms, obsTerms []string
 	for i, op := range ops {
 		switch op.Op {
+		case "full":
+			es := acceptOrder(op.Full.events(capv))
+			items := make([]string, len(es))
+			for j, e := range es {
+				items[j] = gen.Pair(fmt.Sprint(e.P), evTerm(e))
+			}
+			opTerms = append(opTerms, "OFull "+gen.List(items))
 		case "pub":
 			opTerms = append(opTerms, fmt.Sprintf("OPub %d %s", op.Ev.P, evTerm(*op.Ev)))
 		case "burst":
@@ -580,24 +875,7 @@ func runSched(in caseIn) (gen.Case, bool) {
 		case "close":
 			opTerms = append(opTerms, "OClose")
 		}
-		o := obs[i]
-		bs := make([]string, len(o.Batches))
-		for j, b := range o.Batches {
-			ms := make([]string, len(b))
-			for k, m := range b {
-				ms[k] = omsgTerm(m)
-			}
-			bs[j] = gen.List(ms)
-		}
-		ls := make([]string, len(o.Left))
-		for j, b := range o.Left {
-			ms := make([]string, len(b))
-			for k, m := range b {
-				ms[k] = omsgTerm(m)
-			}
-			ls[j] = gen.List(ms)
-		}
-		obsTerms = append(obsTerms, fmt.Sprintf("(%d, %s, %s, %s)", o.Res, gen.List(bs), gen.Bool(o.Closed), gen.List(ls)))
+		obsTerms = append(obsTerms, obsTerm(obs[i]))
 	}
 	return gen.Case{
 		Term:  fmt.Sprintf("CSched %s %s", gen.List(opTerms), gen.List(obsTerms)),
@@ -605,6 +883,84 @@ func runSched(in caseIn) (gen.Case, bool) {
 		Input: in,
 		Obs:   map[string]interface{}{"ops_executed": ops, "per_op": obs},
 	}, stuck
+}
+
+// mergedCase: a case whose last requested operation is a long "full" is written as
+// CFull pre l obs — the observations of all operations (the requested ones and the Close and the
+// releases the harness appended) merged into one; the long burst in run-length notation.
+func mergedCase(in caseIn, ops []opIn, obs []opObs, capv int, acceptOrder func([]evIn) []evIn,
+	obsTerm func(opObs) string) (gen.Case, bool) {
+	if !in.Merge || len(in.Ops) == 0 || in.Ops[len(in.Ops)-1].Op != "full" || len(obs) < len(in.Ops) {
+		return gen.Case{}, false
+	}
+	idx := len(in.Ops) - 1
+	var pre []string
+	for _, op := range ops[:idx] {
+		switch op.Op {
+		case "pub":
+			pre = append(pre, fmt.Sprintf("OPub %d %s", op.Ev.P, evTerm(*op.Ev)))
+		case "release":
+			pre = append(pre, "ORelease")
+		default:
+			return gen.Case{}, false
+		}
+	}
+	f := in.Ops[idx].Full
+	es := acceptOrder(f.events(capv))
+	var runs []string
+	for i := 0; i < len(es); {
+		j := i + 1
+		for j < len(es) && es[j].P == es[i].P && es[j].T == es[j-1].T+1 {
+			j++
+		}
+		runs = append(runs, fmt.Sprintf("(%d, %d, %d)", es[i].P, es[i].T, j-i))
+		i = j
+	}
+	var m opObs
+	for _, o := range obs {
+		if o.Res > m.Res {
+			m.Res = o.Res
+		}
+		m.Batches = append(m.Batches, o.Batches...)
+		m.Left = append(m.Left, o.Left...)
+		m.Closed = m.Closed || o.Closed
+		if o.Stall[1] != 0 {
+			m.Stall = o.Stall
+		}
+	}
+	// summary for the replay / evidence files (the full observation is in the Coq term)
+	delivered, minB, maxB := 0, 0, 0
+	lastTag := map[int]int{}
+	var firstInversion interface{}
+	for _, b := range m.Batches {
+		if minB == 0 || len(b) < minB {
+			minB = len(b)
+		}
+		if len(b) > maxB {
+			maxB = len(b)
+		}
+		for _, x := range b {
+			if t, ok := lastTag[x.P]; ok && x.T <= t && firstInversion == nil {
+				firstInversion = map[string]int{"position": delivered, "producer": x.P, "tag": x.T, "after_tag": t}
+			}
+			lastTag[x.P] = x.T
+			delivered++
+		}
+	}
+	sum := map[string]interface{}{
+		"published": len(es), "capacity": m.Stall[1], "returned_while_batching_loop_stalled": m.Stall[0],
+		"reached_broker": delivered, "batches": len(m.Batches), "batch_min": minB, "batch_max": maxB,
+		"batches_returned": len(m.Left), "close_returned": m.Closed, "worst_result_code": m.Res,
+		"runs_in_acceptance_order": len(runs), "first_per_producer_inversion": firstInversion,
+		"operations_executed": len(ops),
+	}
+	return gen.Case{
+		Term: fmt.Sprintf("CFull %s (expand_runs %d %s %s %s) %s", gen.List(pre), f.K, gen.Str(f.Env),
+			gen.Str(f.Task), gen.List(runs), obsTerm(m)),
+		Kind:  "full",
+		Input: in,
+		Obs:   sum,
+	}, true
 }
 
 // ---------- unforced races ----------
@@ -844,6 +1200,22 @@ func genSched(r *gen.Rand, large bool) caseIn {
 				g.account(e)
 			}
 			ops = append(ops, opIn{Op: "burst", Burst: es})
+		case g.inGate && x < 68:
+			// a short burst behind a stalled batching loop (it fits into the channel)
+			f := &fullIn{K: r.Range(0, 8)}
+			if f.K >= 3 && !r.Chance(1, 12) {
+				f.Env = envPool[r.Intn(len(envPool))]
+			}
+			if f.K == 3 && !r.Chance(1, 8) {
+				f.Task = taskPool[r.Intn(len(taskPool))]
+			}
+			for _, p := range r.Perm(g.np)[:r.Range(1, min(3, g.np))] {
+				n := r.Range(1, 8)
+				f.Prods = append(f.Prods, fullProd{P: p, T0: g.tags[p], N: n})
+				g.tags[p] += n
+				g.buf += n
+			}
+			ops = append(ops, opIn{Op: "full", Full: f})
 		default:
 			e := g.event(r.Intn(g.np))
 			ops = append(ops, opIn{Op: "pub", Ev: &e})
@@ -877,10 +1249,54 @@ func genKeys(r *gen.Rand) caseIn {
 	return caseIn{Ops: ops}
 }
 
+// a full channel: one publication (the writer then sits in the write function), then, behind a
+// stalled batching loop, 1 / 2 / 3 / 8 producers publish capacity + d events in all
+// (d = 0: the channel just fills, 1: all return and the loop holds one, 2..: producers wait)
+var bigOver = []int{0, 1, 2, 3, 5, 17, 60}
+
+func genBig(r *gen.Rand) caseIn {
+	np := []int{1, 2, 3, 8}[r.Intn(4)]
+	d := bigOver[r.Intn(len(bigOver))]
+	f := &fullIn{K: []int{0, 2}[r.Intn(2)]}
+	// producer 9 alone fills the channel up to B free slots; then np producers publish B + d
+	// events concurrently (the start order of their goroutines is random)
+	B := r.Range(20, 200)
+	bulkOver := -B
+	f.Bulk = &fullProd{P: 9, T0: 0, Over: &bulkOver}
+	left := B + d
+	for p := 0; p < np; p++ {
+		n := left
+		if p < np-1 {
+			n = r.Range(1, max(1, 2*left/(np-p)))
+			if n > left-(np-1-p) {
+				n = max(0, left-(np-1-p))
+			}
+		}
+		t0 := 0
+		if p == 0 {
+			t0 = 1
+		}
+		f.Prods = append(f.Prods, fullProd{P: p, T0: t0, N: n})
+		left -= n
+	}
+	perm := r.Perm(len(f.Prods))
+	prods := make([]fullProd, len(f.Prods))
+	for i, j := range perm {
+		prods[i] = f.Prods[j]
+	}
+	f.Prods = prods
+	first := evIn{P: 0, K: 5, T: 0, Env: "e1"}
+	return caseIn{Merge: true, Ops: []opIn{{Op: "pub", Ev: &first}, {Op: "full", Full: f}}}
+}
+
 func sizeOf(c caseIn) int {
 	n := 0
 	for _, o := range c.Ops {
 		n += 1 + len(o.Burst)
+		if o.Full != nil {
+			_, t := o.Full.resolve(10000)
+			n += t
+		}
 	}
 	return n
 }
@@ -922,7 +1338,7 @@ func main() {
 			}
 		}
 		r := gen.NewRand(o.Seed)
-		rSmall, rLarge, rKeys, rRace := r.Fork(), r.Fork(), r.Fork(), r.Fork()
+		rSmall, rLarge, rKeys, rRace, rBig := r.Fork(), r.Fork(), r.Fork(), r.Fork(), r.Fork()
 		nLarge := o.N * 15 / 100
 		nKeys := o.N * 15 / 100
 		nSmall := o.N - nLarge - nKeys
@@ -935,6 +1351,17 @@ func main() {
 		}
 		for i := 0; i < nKeys; i++ {
 			gens = append(gens, genKeys(rKeys))
+		}
+		// a few full-channel cases (10000+ events each): the largest cases, one per shard
+		nBig := 3
+		if o.Tier == "thorough" {
+			nBig = 16
+		}
+		if o.N < 50 {
+			nBig = 1
+		}
+		for i := 0; i < nBig; i++ {
+			gens = append(gens, genBig(rBig))
 		}
 		// small cases first: the first failing case the driver reports is then a small one
 		sort.SliceStable(gens, func(a, b int) bool { return sizeOf(gens[a]) < sizeOf(gens[b]) })
@@ -991,6 +1418,22 @@ func main() {
 			evs := op.Burst
 			if op.Ev != nil {
 				evs = []evIn{*op.Ev}
+			}
+			if op.Full != nil {
+				fps, total := op.Full.resolve(10000)
+				if total >= 10000 {
+					stats["full_channel"]++
+					stats[fmt.Sprintf("full_channel_capacity_plus_%d", total-10000)]++
+				} else {
+					stats["full_fits"]++
+				}
+				stats["events"] += total
+				stats[fmt.Sprintf("kind_%d", min(op.Full.K, 9))] += total
+				for _, fp := range fps {
+					if fp.N > 0 {
+						prods[fp.P] = true
+					}
+				}
 			}
 			if op.Op == "burst" {
 				switch n := len(evs); {
